@@ -32,13 +32,17 @@ pub(super) fn check_selection_set<'doc>(
                 // Avoiding the entry API because we may have to modify the map in-between this `.get()`
                 // and the `.insert()`.
                 if let Some(fragment_depth) = fragment_depths.get(&spread.fragment_name) {
-                    if depth_so_far + *fragment_depth > MAX_LISTS_DEPTH {
+                    // Same bound as for fields below, and the depth reached through the
+                    // fragment counts for the enclosing selection set like any other selection
+                    let post_fragment_depth = depth_so_far + *fragment_depth;
+                    if post_fragment_depth >= MAX_LISTS_DEPTH {
                         return Err(RequestError {
                             message: "Maximum introspection depth exceeded".into(),
                             location: spread.location(),
                             is_suspected_validation_bug: false,
                         });
                     }
+                    max_depth = max_depth.max(post_fragment_depth);
                 } else {
                     // Recursing without marking our fragment spread as used is fine,
                     // because validation guarantees that we do not have a self-referential
